@@ -280,6 +280,7 @@ def run(ctx, rep):
                 if "DotLookup" in kinds:
                     # the object's type is tested for TypeLayout::Module and that edge sets the flag
                     mod_step = False
+                    unstripped = []
                     for bb2, blk in enumerate(g.blocks):
                         t = blk["t"]
                         if t["k"] != "switch" or mod_i not in dict(t["targets"]):
@@ -296,6 +297,13 @@ def run(ctx, rep):
                                 "compiler::ast::r#type::TypeLayout::assume_type_of_self", "compiler::VecErr::to_err_vec", "compiler::CompilationError::details", "compiler::CompilationError::details_lazy_message"})
                         if not any(c.matches("compiler::ast::reassignment::ReassignmentPath::for_type") or c.matches("IntoType>::for_type") for c in oc):
                             continue
+                        # the type is looked at with its wrappers off: an alias captured by a function is CallbackVariable(Module), an annotated one an Alias
+                        strict = rules.origin_calls(g, base, transparent=rules.TRANSPARENT | {rules.TRY_BRANCH, "compiler::ast::r#type::TypeLayout::assume_type_of_self",
+                                "compiler::VecErr::to_err_vec", "compiler::CompilationError::details", "compiler::CompilationError::details_lazy_message"})
+                        if not any(c.matches(("compiler::ast::r#type::TypeLayout::disregard_distractors", "compiler::ast::r#type::TypeLayout::get_type_recursively")) for c in strict):
+                            unstripped.append("the object type is matched against TypeLayout::Module as written (no disregard_distractors): inside a function that "
+                                              "captured the alias it is CallbackVariable(Module), and `cfg.limit = 99` is accepted")
+                            continue
                         tgt = dict(t["targets"])[mod_i]
                         sets = [d for l, d in defs if d[0] == "assign" and d[1] == tgt and "use" in d[4] and "const" in d[4]["use"] and d[4]["use"]["const"].get("int") == "1"]
                         if sets:
@@ -303,6 +311,11 @@ def run(ctx, rep):
     rep.ob("C10.guard", "re-assignment: index / field steps never clear the const flag of the path walked so far", "ok" if carried and n_post >= 2 else "violated",
            "%d postfix steps found. %s" % (n_post, why), pp.span, fn=pp.path, key="C10.guard|reassign-flag-carried")
     mod_detail = "" if mod_step else "`n = m` followed by `n.export = v` rebinds a member the module exports"
+    try:
+        if not mod_step and unstripped:
+            mod_detail = unstripped[0]
+    except NameError:
+        pass
     if not mod_step:
         # the test may sit in a helper predicate (`ty.is_module()`): then the helper is evaluated, not its spelling matched
         for g in [pp] + F.closures_of(pp):
@@ -421,6 +434,9 @@ def run(ctx, rep):
         # the typed expression is the object of a DotLookup target: its receiver comes out of a downcast to Expr::DotLookup
         if not any(c.args and op_local(c.args[0]) is not None and _back(ft, op_local(c.args[0])) & dot_locals for c in rec):
             continue
+        strict = rules.origin_calls(ft, base, transparent=rules.TRANSPARENT | {rules.TRY_BRANCH})
+        if not any(c.matches(("compiler::ast::r#type::TypeLayout::disregard_distractors", "compiler::ast::r#type::TypeLayout::get_type_recursively")) for c in strict):
+            continue            # matched as written: a captured alias (CallbackVariable(Module)) is not seen
         n_mod_sw += 1
         tgt = dict(t["targets"])[mod_i]
         if all(g_.bb not in ft.reachable(tgt) for g_ in gots):
